@@ -14,7 +14,7 @@ MANIFEST = dict(
 
 META = dict(decided="shapes, nlv clamp, component storage columns, LV-major layout of recalculated_y, residual = recalculated - matching response",
             not_decided="orthogonality of scores/weights, X = TP'+E numerically, re-projection reproduces scores (floating-point fixed point)",
-            trusted_base=["assumed contracts of LVCalc / MatrixPreprocess / calcVarExpressed / PLSYPredictor (stubs/pls_stubs.c)"], assumptions=[])
+            trusted_base=["contracts of LVCalc / MatrixPreprocess / calcVarExpressed / PLSYPredictor used as stubs (stubs/pls_stubs.c): the shape part of LVCalc's is checked on its real body by LVCalc_contract, MatrixPreprocess's stored-vector sizes by C10; value parts are arbitrary"], assumptions=[])
 
 SRCS = ["pls.c", "matrix.c", "vector.c", "memwrapper.c", "numeric.c", "tensor.c", "list.c"]
 RB = ["LVCalc", "MatrixPreprocess", "calcVarExpressed"]
@@ -25,7 +25,7 @@ def pls_job(n, xc, ny, nlv, stub_yp, tier, inst="A"):
         d["VC_STUB_YPRED"] = None
     d["VC_ZERO_Y" if inst == "A" else "VC_ZERO_PRED"] = None
     tag = "n=%d,xc=%d,ny=%d,nlv=%d,%s%s" % (n, xc, ny, nlv, inst, "" if stub_yp else ",realYpred")
-    return Job("PLS_structure@" + tag, "C03/pls.c", entry="h_PLS_structure", srcs=SRCS, kind="bounded",
+    return Job("PLS_structure@" + tag, "C03/pls_structure.c", entry="h_PLS_structure", srcs=SRCS, kind="bounded",
                defines=d, remove_bodies=RB + (["PLSYPredictor"] if stub_yp else []), stubs=["stubs/pls_stubs.c"],
                unwind=max(n, xc, ny * nlv, 2) + 3, tier=tier, timeout=1500 if not stub_yp else None,
                bound="concrete shape %s; all matrix values symbolic (finite, non-missing); residual identity split into instance A "
@@ -41,10 +41,15 @@ def jobs(tier):
     for (n, xc, ny, nlv) in [(2, 2, 2, 2), (3, 1, 1, 3), (2, 2, 3, 1)]:
         d = {"VC_N": n, "VC_XC": xc, "VC_NY": ny, "VC_NLV": nlv, "VC_UNIT_ALLLV": None, "VC_STUB_YPRED": None, "VC_STUB_SCOREPRED": None}
         tag = "n=%d,xc=%d,ny=%d,nlv=%d" % (n, xc, ny, nlv)
-        J.append(Job("PLSYPredictorAllLV@" + tag, "C03/pls.c", entry="h_PLSYPredictorAllLV", srcs=SRCS, kind="bounded", defines=d,
+        J.append(Job("PLSYPredictorAllLV@" + tag, "C03/pls_structure.c", entry="h_PLSYPredictorAllLV", srcs=SRCS, kind="bounded", defines=d,
                      remove_bodies=RB + ["PLSYPredictor", "PLSScorePredictor"], stubs=["stubs/pls_stubs.c"], unwind=max(n, xc, ny * nlv, 2) + 3,
                      functions=["PLSYPredictorAllLV"], bound="concrete shape %s; predictions arbitrary (recording stubs)" % tag,
                      clause="PLSYPredictorAllLV: LV-major layout (column ny*lv+j = response j with lv+1 latent variables), shapes, one score prediction"))
+    for (n, xc, ny) in [(2, 2, 2), (3, 1, 1), (2, 2, 3)]:
+        J.append(Job("LVCalc_contract@n=%d,xc=%d,ny=%d" % (n, xc, ny), "C03/lvcalc.c", entry="h_LVCalc_contract", srcs=["matrix.c", "vector.c", "memwrapper.c", "numeric.c", "tensor.c", "list.c"],
+                     kind="bounded", defines={"VC_N": n, "VC_XC": xc, "VC_NY": ny}, unwind=max(n, xc, ny) + 4, functions=["LVCalc"], timeout=900,
+                     bound="%d objects, %d predictors, %d responses; Y symbolic, product kernels recording oracles" % (n, xc, ny),
+                     clause="LVCalc: kernel operand wiring, zeroed output before every accumulating product, start column = largest-variance response, output sizes and block shapes preserved (enforce-run of the LVCalc stub's contract)"))
     if tier == "thorough":
         for (n, xc, ny, nlv) in [(3, 3, 2, 3), (2, 3, 3, 3), (3, 2, 3, 2)]:
             J.append(pls_job(n, xc, ny, nlv, True, "thorough", "A"))
